@@ -9,6 +9,8 @@
 \*            read, cyclic read sizes)
 EXTENDS BclISA, FiniteSets, Json
 CONSTANTS Scope, MaxConsts
+RECURSIVE SetToSeq(_)
+SetToSeq(S) == IF S = {} THEN <<>> ELSE LET m == CHOOSE x \in S : \A y \in S : x <= y IN <<m>> \o SetToSeq(S \ {m})
 VARIABLES phase, p, h, sz
 vars == <<phase, p, h, sz>>
 NoP == [minor |-> 1, name |-> <<>>, code |-> <<>>, consts |-> <<>>, positions |-> <<>>, lfs |-> <<>>]
@@ -39,7 +41,17 @@ Sizes == { 0, 1, 84, 85, 86, 87, 88, 94, 95, 96, 97, 98, 239, 240, 241, 242, 228
 Pats == { <<>>, <<1>>, <<2>>, <<3, 1>>, <<7>>, <<4095, 2>>, <<4096>>, <<4097>>, <<9, 8, 1>> }   \* <<>> = everything in one read
 SKind == phase = 0 /\ Scope = "sizes" /\ \E kd \in {"strconst", "strconst2", "ident", "name", "noname", "offset", "comment", "lastlf"} : sz' = [sz EXCEPT !.kind = kd] /\ phase' = 1 /\ UNCHANGED <<p, h>>
 SSize == phase = 1 /\ Scope = "sizes" /\ \E n \in Sizes, pt \in Pats : sz' = [sz EXCEPT !.n = n, !.pat = pt] /\ phase' = 9 /\ UNCHANGED <<p, h>>
-Next == PickName \/ PickCode \/ PickConst \/ PickLfs \/ HMagic1 \/ HMagic2 \/ HVer1 \/ HVer2 \/ SKind \/ SSize
+\* "parts": files assembled by the specification delivered under *every* partition into reads (tiny file) or every partition with
+\* <= 3 cuts (a file with a constant of every kind): C09's "however the reader hands over the bytes"
+Tiny == [minor |-> 1, name |-> <<97>>, code |-> <<12, 2, 1>>, consts |-> <<>>, positions |-> <<7, 7, 7>>, lfs |-> <<7>>]
+Rich == [minor |-> 1, name |-> <<105, 110>>, code |-> <<9, 0, 2, 9, 1, 2, 9, 3, 28, 1>>,
+         consts |-> << R("str", 0, <<104, 105>>), R("float", 0, <<63, 248, 0, 0, 0, 0, 0, 0>>), R("int", 300, <<>>), R("int", -1, <<255, 255, 255, 255, 255, 255, 255, 255, 253>>), R("bool", 1, <<>>), R("nil", 0, <<>>) >>,
+         positions |-> <<8, 8, 8, 241, 241, 241, 2300, 2300, 2300, 2301>>, lfs |-> <<9, 240, 2288>>]
+PickParts == /\ phase = 0 /\ Scope = "parts"
+             /\ \/ p' = Tiny /\ \E cs \in SUBSET (1..(Len(EncodeProg(Tiny)) - 1)) : sz' = [kind |-> "parts", n |-> 0, pat |-> SetToSeq(cs)]
+                \/ p' = Rich /\ \E a, b \in 0..(Len(EncodeProg(Rich)) - 1) : a <= b /\ sz' = [kind |-> "parts", n |-> 0, pat |-> SetToSeq({a, b} \ {0})]
+             /\ phase' = 9 /\ UNCHANGED h
+Next == PickParts \/ PickName \/ PickCode \/ PickConst \/ PickLfs \/ HMagic1 \/ HMagic2 \/ HVer1 \/ HVer2 \/ SKind \/ SSize
 Spec == Init /\ [][Next]_vars
 
 \* ---- design-level invariants (scope "mc")
@@ -60,5 +72,6 @@ Emit == phase = 9 =>
   PrintT(<<"CASE", ToJson(
     IF Scope = "header" THEN [fam |-> "format", kind |-> "header", hdr |-> h, expect |-> HeaderExpect, n |-> 0, pat |-> <<>>, bytes |-> <<>>, nt |-> TRUE]
     ELSE IF Scope = "sizes" THEN [fam |-> "format", kind |-> sz.kind, hdr |-> <<>>, expect |-> "ok", n |-> sz.n, pat |-> sz.pat, bytes |-> <<>>, nt |-> TRUE]
+    ELSE IF Scope = "parts" THEN [fam |-> "format", kind |-> "parts", hdr |-> <<>>, expect |-> "ok", n |-> 0, pat |-> sz.pat, bytes |-> Enc, nt |-> TRUE]
     ELSE [fam |-> "format", kind |-> "bytes", hdr |-> <<>>, expect |-> "ok", n |-> 0, pat |-> <<>>, bytes |-> Enc, nt |-> TRUE])>>)
 ====
